@@ -132,7 +132,7 @@ func (l layout) want(name string, late bool) (string, bool) {
 			return filepath.Join(l.p1, "Top.php"), true
 		}
 		return "", false
-	case mid[0] == "Late":
+	case lateNS(mid[0]):
 		if !late {
 			return "", false
 		}
@@ -166,6 +166,33 @@ func (l layout) want(name string, late bool) (string, bool) {
 		return filepath.Join(dir, "Sub", "Deep", "D.php"), true
 	}
 	return "", false
+}
+
+// late namespaces: registered with AddNamespace while the lookups run (all of them map to the
+// directory `late`): "Late" by some goroutines at a random moment, "G<g>" by goroutine g first thing
+// in the round, i.e. all goroutines write the children map of `App` at the same moment
+func lateNS(part string) bool {
+	if part == "Late" {
+		return true
+	}
+	if len(part) < 2 || part[0] != 'G' {
+		return false
+	}
+	for _, ch := range part[1:] {
+		if ch < '0' || ch > '9' {
+			return false
+		}
+	}
+	return true
+}
+
+// the late namespace a class name lies in ("" = none)
+func lateOf(name string) string {
+	parts := strings.Split(name, "\\")
+	if len(parts) >= 3 && parts[0] == "App" && lateNS(parts[1]) {
+		return parts[1]
+	}
+	return ""
 }
 
 // ------------------------------------------------------------ history
@@ -307,12 +334,26 @@ func (w *world) round(cfg resolveCfg, rd int) []rrec {
 				lateAt = r.Intn(len(order))
 			}
 			<-start
+			if cfg.Mix == "find" {
+				ns := fmt.Sprintf("App\\G%d", g)
+				add(callRec(&clock, g, "an", ns, func() string { w.cpm.AddNamespace(ns, w.l.late); return "ok" }))
+			}
 			for i, k := range order {
 				m := mname(k)
 				switch cfg.Mix {
 				case "find":
 					if i == lateAt {
 						add(callRec(&clock, g, "an", "App\\Late", func() string { w.cpm.AddNamespace("App\\Late", w.l.late); return "ok" }))
+					}
+					if r.Chance(25) {
+						n := fmt.Sprintf("App\\G%d\\%s", r.Intn(cfg.G), vh.Pick(r, []string{"C", "Inner\\E", "Nope"}))
+						add(callRec(&clock, g, "fc", n, func() string {
+							p, ok := w.cpm.FindClassFile(n)
+							if !ok {
+								return "miss"
+							}
+							return "hit:" + p
+						}))
 					}
 					if r.Chance(3) { // a writer that changes nothing
 						add(callRec(&clock, g, "an0", "App", func() string { w.cpm.AddNamespace("App", w.l.p1); return "ok" }))
@@ -450,14 +491,16 @@ func loadCallOn(vm data.VM, kind, n string) string {
 
 // judge checks one round's history against the sequential witness.
 func judge(cfg resolveCfg, l layout, all []rrec, v *resolveVerdict) (sig, what string) {
-	var lateS, lateE int64 = -1, -1 // earliest start / earliest completion of AddNamespace(App\Late)
+	// per late namespace: earliest start / earliest completion of its AddNamespace
+	lateSm, lateEm := map[string]int64{}, map[string]int64{}
 	for _, r := range all {
 		if r.k == "an" {
-			if lateS < 0 || r.s < lateS {
-				lateS = r.s
+			ns := strings.TrimPrefix(r.n, "App\\")
+			if s, ok := lateSm[ns]; !ok || r.s < s {
+				lateSm[ns] = r.s
 			}
-			if lateE < 0 || r.e < lateE {
-				lateE = r.e
+			if e, ok := lateEm[ns]; !ok || r.e < e {
+				lateEm[ns] = r.e
 			}
 		}
 	}
@@ -488,6 +531,12 @@ func judge(cfg resolveCfg, l layout, all []rrec, v *resolveVerdict) (sig, what s
 				return "hit:" + p
 			}
 			wb, wa := fmtw(before, okB), fmtw(after, okA)
+			var lateS, lateE int64 = -1, -1
+			if ns := lateOf(r.n); ns != "" {
+				if s, ok := lateSm[ns]; ok {
+					lateS, lateE = s, lateEm[ns]
+				}
+			}
 			if strings.HasPrefix(r.r, "hit") {
 				v.Hits++
 			} else {
@@ -500,11 +549,11 @@ func judge(cfg resolveCfg, l layout, all []rrec, v *resolveVerdict) (sig, what s
 				}
 			case lateE >= 0 && lateE < r.s:
 				if r.r != wa {
-					return "resolve:find:registered-not-visible", fmt.Sprintf("AddNamespace(App\\Late) had returned, then FindClassFile(%q) answered %s (want %s)", r.n, r.r, wa)
+					return "resolve:find:registered-not-visible", fmt.Sprintf("AddNamespace(App\\%s) had returned, then FindClassFile(%q) answered %s (want %s)", lateOf(r.n), r.n, r.r, wa)
 				}
 			case lateS < 0 || r.e < lateS:
 				if r.r != wb {
-					return "resolve:find:lookup-invented", fmt.Sprintf("FindClassFile(%q) answered %s before any AddNamespace(App\\Late) had begun (want %s)", r.n, r.r, wb)
+					return "resolve:find:lookup-invented", fmt.Sprintf("FindClassFile(%q) answered %s before any AddNamespace(App\\%s) had begun (want %s)", r.n, r.r, lateOf(r.n), wb)
 				}
 			default:
 				if r.r != wa && r.r != wb {
@@ -675,8 +724,11 @@ func resolveOnce(c *vh.Ctx, bin string, cfg resolveCfg) bool {
 	c.Res.Traces++
 	where := fmt.Sprintf("%d goroutines × %d rounds (fresh VM each) of %s through the shared class-path manager over %d lazily discovered namespaces (GOMAXPROCS=%d)", cfg.G, cfg.Rounds, mixWhat[cfg.Mix], cfg.NS, cfg.Procs)
 	if crash != "" {
-		c.Violation(resolveSig(crash), where+": "+crash, cfg)
-		return false
+		sig := resolveSig(crash)
+		c.Violation(sig, where+": "+crash, cfg)
+		// a listed finding (the race on data.userOutputEmitted in LoadAndRun) ends the child at its first
+		// report; the other mixes are still worth running
+		return c.Known[sig]
 	}
 	if !v.OK {
 		c.Violation(v.Sig, fmt.Sprintf("%s, round %d: recorded history has no sequential witness: %s", where, v.Round, v.What), cfg)
